@@ -395,7 +395,7 @@ def run_stim(stim, scratch, rid=0):
             if last["rep"].get(c) != s:
                 step["rep"].append([c, it.j(s[0]), it.j(s[1])])
                 last["rep"][c] = s
-        obs_log.append({"cfg": cur})
+        obs_log.append({"cfg": cur, "rep": dict(last["rep"])})
         rec["steps"].append(step)
 
     def base(op, b=0, d=0, c=0, key=0):
@@ -467,16 +467,64 @@ def run_stim(stim, scratch, rid=0):
     return {"record": rec, "cls": cls, "truncated": truncated, "obs": obs_log, "keys": dict(it.keys), "nsteps": len(rec["steps"])}
 
 
-def group_info(stim, it):
+# The DOCUMENTED groups of the C++ language-standard shorthands.  This table is part of the property (the oracle of the clause
+# "the shorthands set their documented group of options as a unit"); it is transcribed from docs/languages.rst of the pinned tree
+# ("Using a Different Variable-Length Array Type and Allocator": c++17-pmr.yaml / cetl++14-17.yaml) and is deliberately NOT read
+# from src/nunavut/lang/properties.yaml of the tree under test.  `std` / `std_flavor` are what the names stand for ("cetl++14-17
+# means target C++14 but use the CETL C++17 polyfill types"; uses_pmr / uses_cetl read std_flavor).  A list = accepted values.
+# c++14, c++17, c++20 and c11 are plain standards: they stand for no group.  (There is no c++20-pmr in the pinned tree.)
+GROUP_KEYS = ["std_flavor", "variable_array_type_include", "variable_array_type_template", "variable_array_type_constructor_args",
+              "allocator_include", "allocator_type", "allocator_is_default_constructible", "ctor_convention"]   # model keys 1..8
+DOC_GROUPS = {
+    "c++17-pmr": {
+        "std": ["c++17"], "std_flavor": ["pmr"],
+        "variable_array_type_include": ["<vector>"],
+        "variable_array_type_template": ["std::vector<{TYPE}, {REBIND_ALLOCATOR}>"],
+        "variable_array_type_constructor_args": [""],
+        # docs/languages.rst says "<memory>", the pinned properties.yaml "<memory_resource>" (the header that declares
+        # std::pmr::polymorphic_allocator): both are accepted, the discrepancy is recorded in the evidence
+        "allocator_include": ["<memory_resource>", "<memory>"],
+        "allocator_type": ["std::pmr::polymorphic_allocator"],
+        "allocator_is_default_constructible": [True],
+        "ctor_convention": ["uses-trailing-allocator"],
+    },
+    "cetl++14-17": {
+        "std": ["c++14"], "std_flavor": ["cetl"],
+        "variable_array_type_include": ['"cetl/variable_length_array.hpp"'],
+        "variable_array_type_template": ["cetl::VariableLengthArray<{TYPE}, {REBIND_ALLOCATOR}>"],
+        "variable_array_type_constructor_args": ["{MAX_SIZE}"],
+        "allocator_include": ['"cetl/pf17/sys/memory_resource.hpp"'],
+        "allocator_type": ["cetl::pf17::pmr::polymorphic_allocator"],
+        "allocator_is_default_constructible": [False],
+        "ctor_convention": ["uses-trailing-allocator"],
+    },
+}
+SHORTHANDS = {1: "c++17-pmr", 2: "cetl++14-17"}     # model numbering (ConfigMergeGroups.tla)
+# what a lower-precedence source may have put there (all valid for the C++ language object, all different from both groups)
+GIVEN = {"std_flavor": "std", "variable_array_type_include": '"my/vla.hpp"', "variable_array_type_template": "my::Vla<{TYPE}>",
+         "variable_array_type_constructor_args": "{MAX_SIZE}, 7", "allocator_include": '"my/alloc.hpp"', "allocator_type": "my::alloc",
+         "allocator_is_default_constructible": None, "ctor_convention": "uses-leading-allocator"}   # None: the opposite of the group's
+
+
+def given_value(short, key, hi=False):
+    if key == "allocator_is_default_constructible":
+        return not DOC_GROUPS[short][key][0]
+    return GIVEN[key] + ("" if not hi or key == "ctor_convention" else "2")
+
+
+def group_info(stim, it, strmode=False):
     if (stim.get("lang") != "cpp" or stim.get("embed", "top") != "top") and not stim.get("group"):
-        return {"defs": 0, "std": 0, "l2k": []}
+        return {"defs": 0, "std": 0, "l2k": [], "table": []}
+    table = []
+    for short, block in stim.get("doc_groups", DOC_GROUPS).items():
+        table.append([it.leaf(canon(short, strmode)), [[it.key(k), [it.leaf(canon(v, strmode)) for v in vals]] for k, vals in block.items()]])
     l2k = []
     for c, lid in it.leaves.items():
         if c.startswith("str:"):
             s = json.loads(c[4:])
             if s in it.keys:
                 l2k.append([lid, it.keys[s]])
-    return {"defs": it.key("defaults"), "std": it.key("std"), "l2k": l2k}
+    return {"defs": it.key("defaults"), "std": it.key("std"), "l2k": l2k, "table": table}
 
 
 # ------------------------------------------------------------------------------------------------------------------------------
@@ -610,6 +658,7 @@ def run_cli(stim, scratch, rid):
         if cli.get("stem_doc") is not None:
             rec["steps"].append(step("set", d=cli["stem_doc"] + 1, key=it.key("namespace_file_stem")))
         truncated = None
+        shown = None
         if probe:
             seen_opts, err = probe_options(run, base_args + args, work, DV)
             if seen_opts is None:
@@ -618,6 +667,7 @@ def run_cli(stim, scratch, rid):
                 sc = step("create", c=1)  # the stored section is not observed on this path, only what templates see
                 sc["rep"] = [[1, it.j(("m", {})), it.j(seen_opts)]]
                 rec["steps"].append(sc)
+                shown = seen_opts
         else:
             got, err = listing(args)
             if got is None:
@@ -628,15 +678,17 @@ def run_cli(stim, scratch, rid):
                 sc["cfg"] = [[1, it.j(v)]]
                 sc["rep"] = [[1, it.j(v), it.j(snap(got.get("options"), DV))]]
                 rec["steps"].append(sc)
+                shown = snap(got.get("options"), DV)
         rec["optkey"] = it.key("options")
-        rec["grp"] = group_info(stim, it)
+        rec["grp"] = group_info(stim, it, probe)
         rec["probe"] = 1 if probe else 0
         cls = "other:cli"
         if len(files) > 0 and any(e["nested"] and e["shared"] for e in events):
             cls = "scalar-replaced-by-shared-submap-then-updated"
         elif len(files) > 0 and any(e["nested"] for e in events):
             cls = "scalar-replaced-by-map-then-updated"
-        return {"record": rec, "cls": cls, "truncated": truncated, "obs": [], "keys": dict(it.keys), "nsteps": len(rec["steps"]),
+        return {"record": rec, "cls": cls, "truncated": truncated, "obs": [{"cfg": {}, "rep": {1: (None, shown)}}] if shown else [],
+                "keys": dict(it.keys), "nsteps": len(rec["steps"]),
                 "argv": args}
     finally:
         subprocess.run(["rm", "-rf", str(work)])
@@ -737,6 +789,65 @@ def match_exp(e, o):
         return set(om) == set(e[1]) and all(match_exp(e[1][k], om[k]) for k in e[1])
     # leaf: same marker, and the observed value (100 * document + n, see stim_from_model) comes from the expected document
     return o[0] == e[0] and o[1].startswith("int:") and int(o[1][4:]) // 100 == e[1]
+
+
+def stim_from_group_case(case, observe="listing"):
+    """a case of ConfigMergeGroups.tla (shorthand, channel, which keys a lower source perturbs, which keys the selecting / a higher
+    source gives as well) -> a C++ history with the real option names"""
+    short = SHORTHANDS[case["sh"]]
+    low = {GROUP_KEYS[k - 1]: given_value(short, GROUP_KEYS[k - 1]) for k in case["low"]}
+    high = {GROUP_KEYS[k - 1]: given_value(short, GROUP_KEYS[k - 1], hi=True) for k in case["high"]}
+    heap = [[[k, {"x": v}] for k, v in low.items()]]
+    heap.append([["options", {"r": 0}]])
+    docs = [{"root": {"r": 1}, "via": "file" if (case["lowkind"] == "file" or case["chan"] == "cli") else "api"}]
+    ops = [["new", 1, -1], ["upd", 1, 0]]
+    meta = {"group_case": case, "short": short, "low": low, "high": high}
+    if case["chan"] == "cli":
+        if case["lowkind"] == "api":     # no API documents on the command line: an unrelated file between the two instead
+            heap.append([["vk1", {"x": 1}]])
+            docs.append({"root": {"r": len(heap) - 1}, "via": "file"})
+        heap.append([[k, {"d": False}] for k in FLAGS] + [["std", {"x": short}]])
+        docs.append({"root": {"r": len(heap) - 1}, "via": "api"})
+        return dict(meta, level="cli", lang="cpp", embed="top", heap=heap, docs=docs, ops=[],
+                    cli={"options_doc": len(docs) - 1, "observe": observe, "subprocess": False},
+                    keys=["options", "defaults", "extension", "namespace_file_stem", "vk1", "indent"])
+    if case["chan"] == "file":
+        heap.append([["std", {"x": short}]])
+        heap.append([["options", {"r": len(heap) - 1}]])
+        docs.append({"root": {"r": len(heap) - 1}, "via": "file"})
+        ops.append(["upd", 1, len(docs) - 1])
+        if high:
+            heap.append([[k, {"x": v}] for k, v in high.items()])
+            docs.append({"root": {"r": len(heap) - 1}, "via": "api"})
+            ops.append(["set", 1, "options", len(docs) - 1])
+    else:   # the options override names the shorthand (and maybe one option of the group as well)
+        heap.append([["std", {"x": short}]] + [[k, {"x": v}] for k, v in high.items()])
+        docs.append({"root": {"r": len(heap) - 1}, "via": "api"})
+        ops.append(["set", 1, "options", len(docs) - 1])
+    ops += [["create", 1], ["obs"]]
+    return dict(meta, level="lb", lang="cpp", embed="top", heap=heap, docs=docs, ops=ops, keys=["options", "defaults", "vk1"])
+
+
+def group_case_matches(stim, res):
+    """the symbolic expectation of the model, resolved with the documented table, against what the created language reports"""
+    if res["truncated"] or not res["obs"]:
+        return False
+    rep = res["obs"][-1]["rep"]
+    if not rep:
+        return False
+    opts = rep[max(rep)][1]
+    if opts is None or opts[0] != "m":
+        return False
+    strmode = stim.get("cli", {}).get("observe") == "probe"
+    for k, sym in zip(GROUP_KEYS, stim["group_case"]["exp"]):
+        got = opts[1].get(k)
+        if sym == "doc":
+            if got is None or got[1] not in [canon(v, strmode) for v in DOC_GROUPS[stim["short"]][k]]:
+                return False
+        elif sym == "given":
+            if got is None or got[1] != canon(stim["low"][k], strmode):
+                return False
+    return True
 
 
 WORDS = ["alpha", "beta", ".h", "c++17", "any", "big", "little", "", "x y"]
@@ -917,6 +1028,23 @@ class Gen:
             ops += [["new", 2, -1], ["create", 2], ["obs"]]
         return {"level": "lb", "lang": "cpp", "embed": "top", "heap": heap, "docs": docs, "ops": ops,
                 "keys": ["options", "defaults", "vk1"]}
+
+    def doc_example(self):
+        """the configuration files of docs/languages.rst (or arbitrary valid values for some keys of a group) as the project's
+        configuration, a shorthand on top of it through a later file, the options override or the command line"""
+        r = self.rng
+        short = r.choice(sorted(DOC_GROUPS))
+        if r.random() < 0.5:
+            other = r.choice(sorted(DOC_GROUPS))
+            low = {k: v[0] for k, v in DOC_GROUPS[other].items() if k not in ("std", "std_flavor")}
+        else:
+            low = {k: given_value(short, k) for k in r.sample(GROUP_KEYS, r.randint(1, 4))}
+        case = {"sh": [k for k, v in SHORTHANDS.items() if v == short][0], "chan": r.choice(["file", "ovr", "cli"]),
+                "lowkind": r.choice(["file", "api"]), "low": [], "high": [], "exp": ["doc"] * len(GROUP_KEYS)}
+        stim = stim_from_group_case(case, observe=r.choice(["listing", "listing", "probe"]))
+        stim["heap"][0] = [[k, {"x": v}] for k, v in low.items()]
+        stim["low"] = low
+        return stim
 
     def cli(self, observe="listing", subprocess_=False):
         r = self.rng
@@ -1146,6 +1274,37 @@ def replay_model_cases(ctx, cases, plan, label):
     return stims, results, suspects
 
 
+def replay_group_cases(ctx, gcases):
+    """spec -> code for the clause "a shorthand sets its documented group as a unit": every case of ConfigMergeGroups.tla through
+    LanguageContextBuilder (file / API / options override) or nnvg (--language-standard), judged by the T-layer with the documented
+    table; the model's symbolic expectation is compared as well (drift)."""
+    stims = []
+    for i, c in enumerate(gcases):
+        stims.append(stim_from_group_case(c))
+        if c["chan"] == "cli" and i % ctx.pick(6, 2) == 0:
+            stims.append(stim_from_group_case(c, observe="probe"))
+    results = run_many(ctx, stims)
+    for j, r in enumerate(results):
+        r["record"]["id"] = j
+        ctx.count()
+        c = stims[j]["group_case"]
+        ctx.distinct("g|%s|%s|%s|%s|%s|%s" % (stims[j]["short"], c["chan"], c["lowkind"], c["low"], c["high"], stims[j].get("cli", {}).get("observe")))
+    rej = judge(ctx, stims, results, what="language-standard shorthand case")
+    ntr = 0
+    for j, (st, r) in enumerate(zip(stims, results)):
+        if j not in rej and not group_case_matches(st, r):
+            if r["truncated"]:
+                ntr += 1
+            ctx.drift("shorthand case differs from the model's expectation but satisfies P: %s %s" %
+                      (json.dumps(st["group_case"]), r["truncated"] or ""))
+    mid = len(stims) // 3
+    ctx.sample({"direction": "spec->code (shorthand groups)", "case": stims[mid]["group_case"], "shorthand": stims[mid]["short"],
+                "lower_source_gives": stims[mid]["low"], "ops": stims[mid]["ops"], "argv": results[mid].get("argv"),
+                "reported_options": {k: v[1] for k, v in results[mid]["obs"][-1]["rep"][1][1][1].items() if k in GROUP_KEYS}
+                if results[mid]["obs"] and results[mid]["obs"][-1]["rep"] else None}, limit=4)
+    return stims, results, rej
+
+
 def run(ctx):
     u, nl = _nn()
     rng = ctx.rng
@@ -1176,6 +1335,15 @@ def run(ctx):
     # language-standard groups: _validate_language_options writes the selected block over the options (I) vs. GroupApply (P)
     sliced(ctx, "ConfigMerge_group", 16, "ConfigMerge fold with option groups",
            "CopyMode=rebuild Mode=fold Group=update UGroup (1 x 36 x 117 shapes)")
+    if not ctx.quick:
+        sliced(ctx, "ConfigMerge_group4", 16, "ConfigMerge fold with option groups, a lower file below the selecting one",
+               "CopyMode=rebuild Mode=fold Group=update UGroup4 (1 x 36 x 36 x 13 shapes)")
+    # the clause itself, small and exhaustive: shorthand x channel x perturbed keys x explicitly given keys; cases are emitted
+    gcases = tlc.emit_cases(ctx, "ConfigMergeGroups", ctx.pick("ConfigMergeGroups", "ConfigMergeGroups_2"),
+                            name="ConfigMergeGroups (+ case emission)",
+                            constants="2 shorthands x 3 channels x 2 lower kinds x <=%d perturbed of 8 keys x <=1 explicit key, Impl=unit" % ctx.pick(1, 2))
+    if len(gcases) < 500:
+        raise MachineryFailure("too few shorthand cases emitted: %d" % len(gcases))
     # histories: two builders sharing documents, create/update interleaved
     for hcfg, hn, hdesc in ctx.pick([("ConfigMerge_histq", 7, "MaxOps=5 UHistQ (3 x 7 x 7 shapes)")],
                                     [("ConfigMerge_histq6", 7, "MaxOps=6 UHistQ (3 x 7 x 7 shapes)"),
@@ -1195,6 +1363,15 @@ def run(ctx):
                   subst={"INVARIANT DocsUnmodified\n": "", "INVARIANT CtxStable\n": "", "INVARIANT NoSharing\n": "",
                          "INVARIANT OracleClauses\n": ""}, expect_violation="Refines")
     neg.append("Group=setdefault (the block only fills gaps) refuted by invariant Refines after %d states" % a.distinct)
+    a, _ = sliced(ctx, "ConfigMerge_groupneg", 1, "neg group partial", "",
+                  subst={'Group = "setdefault"': 'Group = "partial"', "INVARIANT DocsUnmodified\n": "", "INVARIANT CtxStable\n": "",
+                         "INVARIANT NoSharing\n": "", "INVARIANT OracleClauses\n": ""}, expect_violation="Refines")
+    neg.append("Group=partial (a documented key missing from the shipped block) refuted by invariant Refines after %d states" % a.distinct)
+    r = tlc.run_tlc(SPECS / "ConfigMergeGroups.tla", SPECS / "ConfigMergeGroups_neg.cfg", ctx.scratch, workers=1, xmx="1g")
+    if r.violated != "Refines":
+        raise MachineryFailure("negative control ConfigMergeGroups Impl=partial was not refuted: %s %s" % (r.error, r.violated))
+    neg.append("ConfigMergeGroups Impl=partial (group de-duplicated against the stock options: 3 of the documented keys dropped) "
+               "refuted by invariant Refines after %d states" % r.distinct)
     ctx.cov["model_negative_control"] = neg
     phase("model checking")
 
@@ -1213,6 +1390,7 @@ def run(ctx):
     hplan = [("du", "api", "c", "top", 1, 0), ("lc", "file", "c", "top", 2, 0), ("lb", "api", "c", "top", ctx.pick(5, 3), 0),
              ("lb", "file", "c", "top", ctx.pick(5, 3), 1), ("lb", "api", "c", "opt", ctx.pick(7, 4), 2)]
     replay_model_cases(ctx, hcases, hplan, "hist")
+    replay_group_cases(ctx, gcases)
     phase("spec->code")
 
     # ---- 3. code -> spec ----------------------------------------------------------------------------------------------
@@ -1225,6 +1403,7 @@ def run(ctx):
             for via in (("api",) if level == "du" else ("api", "file")):
                 rs += [g.d7_family(level, shared, via) for _ in range(ctx.pick(4, 20))]
     rs += [g.cpp_group() for _ in range(ctx.pick(250, 2500))]
+    rs += [g.doc_example() for _ in range(ctx.pick(60, 600))]
     rs += [g.cli() for _ in range(ctx.pick(250, 2500))]
     rs += [g.cli(observe="probe") for _ in range(ctx.pick(30, 300))]
     rs += [g.cli(subprocess_=True) for _ in range(ctx.pick(6, 40))]
@@ -1255,8 +1434,12 @@ def run(ctx):
         ctx.ambiguous("%d histories use a builder again after it created a context (it shares its LanguageConfig with that context): "
                       "what the builder and its earlier contexts then report is not asserted; the documents, other builders and other "
                       "builders' contexts still are" % reused)
-    ctx.ambiguous("an option inside a language-standard group (c++17-pmr, cetl++14-17) that the user also gives explicitly: whether it "
-                  "survives the group is not asserted (Any)")
+    ctx.ambiguous("an option of a language-standard group (c++17-pmr, cetl++14-17) that the source which names the shorthand, or a "
+                  "higher-precedence one, also gives explicitly: whether it survives the group is not asserted (AnyV); given by a "
+                  "LOWER-precedence source it must take the documented value")
+    ctx.ambiguous("documentation vs pinned tree: docs/languages.rst gives allocator_include \"<memory>\" for c++17-pmr, the pinned "
+                  "properties.yaml \"<memory_resource>\" (the header that declares std::pmr::polymorphic_allocator); the documented "
+                  "table of the check accepts both for this one key")
     ctx.ambiguous("an explicit scalar met by a later map that consists of default-marked values only: not asserted (Any)")
 
     phase("code->spec")
@@ -1274,6 +1457,8 @@ def run(ctx):
     ctx.cov["exhaustive"] = False
     ctx.assumptions += ["TLC and the ConfigMergeP/ConfigMerge/ConfigMergeTrace specifications",
                         "PyYAML: yaml.dump/yaml.load keep values and object sharing (anchors) of the documents the harness writes",
+                        "the table of documented language-standard groups in vf/props/c13.py (transcribed from docs/languages.rst of the "
+                        "pinned tree; std/std_flavor from the shorthand names)",
                         "the harness's reading of the command line (flag given = explicit True, flag absent = default-marked False, "
                         "--configuration files in the order given, flags over files)",
                         "snapshots compare leaves by (python type, JSON text); lists are atomic leaves"]
@@ -1339,7 +1524,28 @@ def selftests(ctx, g=None):
     check("default-marked value displacing an explicit one is rejected (merge.default_marker)", s2, m_marker, "marker")
 
     # a language-standard group that is not applied as a unit
-    s3 = {"level": "ref", "group": True, "combine_new": True,
+    # the documented table is the oracle, not the `defaults` of the configuration: a lower source gave `incl`, the override names
+    # the shorthand; a report in which `incl` keeps the lower source's value (a shipped block without that key) must be rejected
+    s4 = {"level": "ref", "group": True, "combine_new": True,
+          "doc_groups": {"S-pmr": {"std": ["s17"], "alloc": ["pmr::alloc"], "incl": ["<vector>", "<vec>"]}},
+          "heap": [[["options", {"r": 1}], ["defaults", {"r": 2}]],
+                   [["std", {"x": "s14"}], ["alloc", {"x": ""}], ["incl", {"x": "<vector>"}]],
+                   [["S-pmr", {"r": 3}]],
+                   [["std", {"x": "s17"}], ["alloc", {"x": "pmr::alloc"}], ["incl", {"x": "<vector>"}]],
+                   [["options", {"r": 5}]], [["incl", {"x": "other.hpp"}]],
+                   [["std", {"x": "S-pmr"}]]],
+          "docs": [{"root": {"r": 0}, "via": "api"}, {"root": {"r": 4}, "via": "api"}, {"root": {"r": 6}, "via": "api"}],
+          "ops": [["new", 1, 0], ["upd", 1, 1], ["set", 1, "options", 2], ["create", 1], ["obs"]], "keys": ["options", "defaults"]}
+
+    def m_unit(rec, keys):
+        st = [x for x in rec["steps"] if x["op"] == "create"][0]
+        low = [e for e in rec["docs"][1]["e"][0][1]["e"] if e[0] == keys["incl"]][0][1]["v"]
+        ent = [e for e in st["rep"][0][2]["e"] if e[0] == keys["incl"]][0]
+        assert ent[1]["v"] != low
+        ent[1]["v"] = low
+    check("a documented group key that keeps a lower-precedence value is rejected (documented table, merge.precedence)", s4, m_unit, "prec")
+
+    s3 = {"level": "ref", "group": True, "combine_new": True, "doc_groups": {},
           "heap": [[["options", {"r": 1}], ["defaults", {"r": 2}]],
                    [["std", {"x": "s14"}], ["alloc", {"x": ""}], ["flavor", {"x": "std"}], ["other", {"x": 1}]],
                    [["s17-pmr", {"r": 3}]],
